@@ -179,6 +179,11 @@ impl Scanner {
         // Check for a byte literal
         if self.ch == '\'' && identifier == "b" {
             self.read_char();
+            if self.position >= self.input.len() {
+                // the input ends right after the opening quote
+                let tok: String = self.input[position..].iter().collect();
+                return self.make_token(TokenType::Illegal, &tok);
+            }
             let the_byte = self.input[self.position];
             // Consume ending quote (')
             self.read_char();
@@ -313,6 +318,10 @@ impl Scanner {
         let position = self.position;
         // move past the opening quote (') character
         self.read_char();
+        if self.position >= self.input.len() {
+            // the input ends right after the opening quote
+            return self.make_token(TokenType::Illegal, "'");
+        }
         let the_char = self.input[self.position].to_string();
         self.read_char();
         if self.ch == '\'' {
